@@ -156,6 +156,11 @@ type respRun struct {
 var httpStatus = []string{"s200", "s201", "s204", "s299", "s301", "s304", "s400", "s404", "s418", "s429", "s500", "s503", "s599"}
 var httpNet = []string{"badstatus", "badheader", "hugeheader", "closebefore", "closeduring", "many1xx"}
 var httpBody = []string{"trunc", "badchunk", "chunkhuge", "chunkneg", "chunknocrlf", "chunktrunc"}
+
+// the ANNOUNCED length of the body is the peer's number (spec/Responses.tla AnnouncedLens): 2^62, 2^63-1 (status and headers
+// arrive, the body ends early) and 2^63, 10^20 (no Content-Length a client can accept: no response at all)
+var httpLenBody = []string{"cl2p62", "clmax64"}
+var httpLenNet = []string{"cl2p63", "cl1e20"}
 var tunnelLetters = []string{"tunrefused", "tun407", "tungarbage", "tunextra"}
 var httpList = []string{"lst0", "lst1", "lststr", "lstnull", "lstobj"}
 var httpOdd = []string{"early", "empty", "big", "notjson", "jsonarr", "nothtml", "shorthdr", "nohdr", "cont100", "upgrade", "gzipraw", "manyheaders", "dribble"}
@@ -228,8 +233,14 @@ func grpcScenarioPayload(letters []string, variant string) string {
 		case "emptydefault":
 			payload = "{}"
 		}
-		fmt.Fprintf(&b, "  - name: a%d\n    tag: a\n    call: target.TargetService.Hello\n    payload: '%s'\n%s    postprocessors:\n      - type: assert/response\n        payload: [Hello]\n        status_code: 200\n", i, payload, meta)
-		fmt.Fprintf(&b, "  - name: b%d\n    tag: b\n    call: target.TargetService.Hello\n    payload: '{\"name\": \"%s\"}'\n", i, l)
+		call, payloadB, assert := "target.TargetService.Hello", fmt.Sprintf("{\"name\": \"%s\"}", l), "        payload: [Hello]\n"
+		if c := scentarget.WktCall(l); c != "" {
+			// the letter is the method: an OK reply of a well-known type (request: Empty).  Such a reply has no greeting to
+			// assert on: step a asserts the status only, so the reply goes on into the step's variables
+			call, payload, payloadB, assert = c, "{}", "{}", ""
+		}
+		fmt.Fprintf(&b, "  - name: a%d\n    tag: a\n    call: %s\n    payload: '%s'\n%s    postprocessors:\n      - type: assert/response\n%s        status_code: 200\n", i, call, payload, meta, assert)
+		fmt.Fprintf(&b, "  - name: b%d\n    tag: b\n    call: %s\n    payload: '%s'\n", i, call, payloadB)
 	}
 	b.WriteString("scenarios:\n")
 	for i, l := range letters {
@@ -261,7 +272,11 @@ func grpcAmmo(letters []string, variant string) string {
 		case "emptydefault":
 			payload = "{}"
 		}
-		fmt.Fprintf(&b, "{\"tag\": \"%s\", \"call\": \"target.TargetService.Hello\", \"payload\": %s%s}\n", l, payload, meta)
+		call := "target.TargetService.Hello"
+		if c := scentarget.WktCall(l); c != "" {
+			call, payload = c, "{}"
+		}
+		fmt.Fprintf(&b, "{\"tag\": \"%s\", \"call\": \"%s\", \"payload\": %s%s}\n", l, call, payload, meta)
 	}
 	return b.String()
 }
@@ -303,7 +318,7 @@ func repeat(l string, n int) []string {
 const shots = 30
 
 // availability runs: 20 rps for 3 s; instance 1 at once, instance 2 after 300 ms; the target goes away with the first
-// sample and is back 1.8 s after the start (nothing is decided from these times)
+// sample (never before it: the guns' warm-up is over then) and is back 1.8 s after the start (nothing is decided from these times)
 const availShots = 60
 
 func availPoolYAML(id, gunType, ammoType, ammoFile, target, gunExtra string) string {
@@ -338,7 +353,7 @@ const runLimit = 300 * time.Second
 
 func planAll(mixes int, rnd *rand.Rand, h2 bool) []respPlan {
 	var plans []respPlan
-	httpAll := append(append(append(append([]string{}, httpStatus...), httpNet...), httpBody...), httpOdd...)
+	httpAll := append(append(append(append(append(append([]string{}, httpStatus...), httpNet...), httpBody...), httpOdd...), httpLenBody...), httpLenNet...)
 	for _, l := range httpAll {
 		plans = append(plans, respPlan{gun: "http", posts: "none", letters: repeat(l, shots)})
 		plans = append(plans, respPlan{gun: "http/scenario", posts: "all", letters: repeat(l, shots)})
@@ -353,6 +368,17 @@ func planAll(mixes int, rnd *rand.Rand, h2 bool) []respPlan {
 			}
 			plans = append(plans, respPlan{gun: "http/scenario", posts: p, letters: repeat(l, shots)})
 		}
+	}
+	// absurd announced lengths x every way a scenario step reads the body into memory (each postprocessor set on its own,
+	// none = the body is only drained) and, with the side channels on (answlog / debug log read the body too), x every gun
+	for _, l := range httpLenBody {
+		for _, p := range []string{"none", "jsonpath", "header_substr", "xpath", "assert", "idx_last"} {
+			plans = append(plans, respPlan{gun: "http/scenario", posts: p, letters: repeat(l, shots)})
+		}
+		plans = append(plans, respPlan{gun: "http/scenario", posts: "none", letters: repeat(l, shots), debug: true})
+		plans = append(plans, respPlan{gun: "http/scenario", posts: "all", letters: repeat(l, shots), debug: true})
+		plans = append(plans, respPlan{gun: "http", posts: "none", letters: repeat(l, shots), debug: true})
+		plans = append(plans, respPlan{gun: "connect", posts: "none", letters: repeat(l, shots), debug: true})
 	}
 	// Content-Encoding: gzip on garbage, with a client that decompresses (single-letter runs: the gun option is per run)
 	for _, g := range []string{"http", "http/scenario", "connect"} {
@@ -435,6 +461,15 @@ func planAll(mixes int, rnd *rand.Rand, h2 bool) []respPlan {
 		plans = append(plans, respPlan{gun: "grpc", posts: "none", letters: repeat(l, shots), timeout: l == "gslow"})
 		plans = append(plans, respPlan{gun: "grpc/scenario", posts: "none", letters: repeat(l, shots), timeout: l == "gslow"})
 	}
+	// OK replies whose TYPE is a protobuf well-known type (Empty, Timestamp, Duration, wrappers, Struct, Value, ListValue, Any,
+	// FieldMask): single-letter runs for both guns, the scenario gun also with the side channels on
+	for _, l := range scentarget.WktLetters() {
+		plans = append(plans, respPlan{gun: "grpc", posts: "none", letters: repeat(l, shots)})
+		plans = append(plans, respPlan{gun: "grpc/scenario", posts: "none", letters: repeat(l, shots)})
+		if l == "wempty" || l == "wstring" || l == "wany" {
+			plans = append(plans, respPlan{gun: "grpc/scenario", posts: "none", letters: repeat(l, shots), debug: true})
+		}
+	}
 	// the timeout class (and two controls) crossed with the shape of the ammo: metadata none / some, payload empty /
 	// non-empty for the grpc guns; with / without a body for the http guns
 	for _, g := range []string{"grpc", "grpc/scenario"} {
@@ -493,8 +528,8 @@ func planAll(mixes int, rnd *rand.Rand, h2 bool) []respPlan {
 		}
 	}
 	// seeded random mixtures (letters whose effect is confined to their own request)
-	mixHTTP := append(append(append(append(append([]string{}, httpStatus...), httpNet...), httpBody...), httpOdd...), httpList...)
-	mixGrpc := append([]string{"gbig", "gtoobig", "gempty", "ggarbage"}, grpcOddCodes...)
+	mixHTTP := append(append(append(append(append(append(append([]string{}, httpStatus...), httpNet...), httpBody...), httpOdd...), httpList...), httpLenBody...), httpLenNet...)
+	mixGrpc := append(append([]string{"gbig", "gtoobig", "gempty", "ggarbage"}, grpcOddCodes...), scentarget.WktLetters()...)
 	mixPosts := append(append([]string{}, allPosts...), idxPostNames...)
 	for c := 0; c <= 16; c++ {
 		mixGrpc = append(mixGrpc, fmt.Sprintf("c%d", c))
@@ -728,14 +763,29 @@ func runPlan(idx int, p respPlan, t *respTargets, root string) respRun {
 	conf.Engine.Pools[0].Aggregator = agg
 	eng := engine.New(log, m, conf.Engine)
 	t0 := time.Now()
+	over := make(chan struct{})
 	if gate != nil {
-		// the history: away as soon as the first sample is there (at the latest after 1 s), back 1.8 s after the start
+		// the history: away as soon as the first sample is there - never before: a gun's warm-up (the gRPC guns resolve the
+		// target's services by reflection) is over by then, however long a starved machine takes for it (an earlier version went
+		// away "at the latest after 1 s" and met the warm-up at load average 250: that is a target that is down at start-up,
+		// which may stop a run) -, back 1.8 s after the start and not sooner than 0.6 s after going away
 		go func() {
-			for time.Since(t0) < time.Second && len(agg.Samples()) == 0 {
-				time.Sleep(2 * time.Millisecond)
+			for len(agg.Samples()) == 0 {
+				select {
+				case <-over:
+					return
+				case <-time.After(2 * time.Millisecond):
+				}
 			}
 			gate.SetMode(strings.TrimPrefix(p.avail, "av"))
-			time.Sleep(time.Until(t0.Add(1800 * time.Millisecond)))
+			back := t0.Add(1800 * time.Millisecond)
+			if m := time.Now().Add(600 * time.Millisecond); m.After(back) {
+				back = m
+			}
+			select {
+			case <-over:
+			case <-time.After(time.Until(back)):
+			}
 			gate.SetMode("up")
 		}()
 	}
@@ -744,6 +794,7 @@ func runPlan(idx int, p respPlan, t *respTargets, root string) respRun {
 		limit = 40 * time.Second // (normal: 2 .. 5 s) has an instance that is blocked; repeated once alone like any other
 	}
 	res.RunErr = runEngineWith(eng, limit)
+	close(over)
 	res.WallMs = int(time.Since(t0) / time.Millisecond)
 	res.Fired, res.Answered = int(m.Request.Get()), int(m.Response.Get())
 	res.Seen = int(seen() - seenBefore)
@@ -850,7 +901,10 @@ func responsesMain(args []string) {
 	close(next)
 	wg.Wait()
 	for j := range results {
-		if strings.Contains(results[j].RunErr, "context deadline exceeded") && !results[j].Fatal {
+		// (an availability run in which no connection met the target while it was away - the engine was starved past the
+		// window, seen at load average 180 - observed nothing: it is played again alone too, and judged by the same rules)
+		missed := plans[j].avail != "" && results[j].BuildErr == "" && results[j].RunErr == "" && results[j].Downs < 1
+		if (strings.Contains(results[j].RunErr, "context deadline exceeded") || missed) && !results[j].Fatal {
 			t := newTargets(*h2)
 			results[j] = runPlan(j, plans[j], t, root)
 			results[j].Retried = true
